@@ -421,6 +421,7 @@ func (in *Interp) ensureInit(pkg *ssa.Package) {
 	if in.E.skipInit(pkg.Pkg.Path()) {
 		return
 	}
+	in.E.ensureBuilt(pkg)
 	init := pkg.Func("init")
 	if init == nil || init.Blocks == nil {
 		return
